@@ -5,6 +5,10 @@ pub mod c02;
 pub mod c03;
 pub mod c04;
 pub mod c12;
+pub mod c13;
+pub mod c14;
+pub mod c16;
+pub mod c17;
 
 use std::time::Instant;
 
@@ -157,6 +161,99 @@ pub fn run(cfg: &RunCfg, t0: Instant) -> i32 {
                 cfg.seed,
                 "exploration",
                 "W-pool: for every generated Swap the state is forked, Simulation is queried and the same offer executed (50% tolerance): return, the four fee figures and the receiver's balance change must equal the quote; same for every simple route vs SimulateSwapOperations; every 2nd step ReverseSimulation on a random constant-product pool/ask and Simulation(quote+1) >= ask; distinct = (pool, offer denom, magnitude, outcome)",
+                &[ASSUME_CHAIN, ASSUME_BOUNDS],
+                t0.elapsed().as_secs_f64(),
+                json!({"shards": shards, "ops_per_shard": n}),
+            )
+        }
+        "C13" => {
+            let shards = cfg.pick(4, 32);
+            let n = cfg.pick(2_500, 12_000);
+            let mut rep = crate::run_shards(cfg, shards, |s| {
+                pool_shard(cfg, s, n, vec![Box::new(c13::C13::new(cfg.seed * 71 + s as u64))], &|g, _| {
+                    g.weights = [40, 16, 22, 4, 6, 3, 1, 1, 3];
+                })
+            });
+            rep.floor("swap_limit_cp", 500);
+            rep.floor("swap_limit_ss", 300);
+            rep.floor("belief_price", 50);
+            rep.floor("minimum_receive", 50);
+            rep.floor("deposit_tol_cp", 50);
+            rep.floor("monotone", 300);
+            rep.floor("reject_is_noop", 500);
+            rep.finish(
+                &cfg.tier,
+                cfg.seed,
+                "exploration",
+                "W-pool (swap/deposit-heavy, tolerances None/0/boundary/50%/>50%/>100%, belief prices around the pool price and 0, minimum_receive below/at/above): every direct swap's accept/reject decision is compared with an independently evaluated exact-rational predicate outside a boundary band equal to the floor granularity; every 4th step forked probes: exact-proportion deposits under tolerances {0,0.1%,10%,50%,100%} and >100%, monotonicity of the decision in the tolerance for swaps and constant-product deposits; state equality after every rejected trade; distinct = (pool, direction, magnitude, decision, tolerance)",
+                &[ASSUME_CHAIN, ASSUME_BOUNDS, "decisions inside the boundary band (rounding granularity of the contract's own fixed-point) are counted, not judged"],
+                t0.elapsed().as_secs_f64(),
+                json!({"shards": shards, "ops_per_shard": n}),
+            )
+        }
+        "C14" => {
+            let shards = cfg.pick(4, 32);
+            let n = cfg.pick(2_500, 10_000);
+            let mut rep = crate::run_shards(cfg, shards, |s| {
+                pool_shard(cfg, s, n, vec![Box::new(c14::C14::new())], &|g, _| {
+                    g.weights = [14, 5, 12, 45, 8, 4, 2, 2, 3];
+                })
+            });
+            rep.floor("equivalence", 500);
+            rep.floor("no_buffer_left", 2_000);
+            rep.floor("refused_when", 30);
+            rep.floor("no_lock_for_others", 30);
+            rep.floor("atomic", 500);
+            rep.finish(
+                &cfg.tier,
+                cfg.seed,
+                "fault_enumeration",
+                "W-pool (single-asset-heavy: odd/even amounts, both pool types, receivers, lock options, own/foreign/new position ids, slippage settings): every single-asset deposit is compared, from the same forked state, with the manual swap-half-then-deposit sequence (LP/position, reserves, supply, fee collector, burned supply, user balance modulo the odd unit); for every 3rd accepted one a failure is injected at EACH of its internal chain calls (contract entries, replies, bank sends/burns/mints, token-factory calls) and with swaps disabled, and the chain state must be bit-identical to the pre-state; the temporary buffer key is looked up after every message; distinct = (pool, denom, magnitude, parity, lock, failed call kind and index)",
+                &[ASSUME_CHAIN, ASSUME_BOUNDS, "one injected failure per execution"],
+                t0.elapsed().as_secs_f64(),
+                json!({"shards": shards, "ops_per_shard": n}),
+            )
+        }
+        "C16" => {
+            let shards = cfg.pick(4, 32);
+            let n = cfg.pick(2_500, 10_000);
+            let mut rep = crate::run_shards(cfg, shards, |s| {
+                pool_shard(cfg, s, n, vec![Box::new(c16::C16::new(cfg.seed * 17 + s as u64))], &|g, _| {
+                    g.weights = [18, 8, 16, 8, 10, 30, 2, 6, 2];
+                    g.max_pools = 40;
+                })
+            });
+            rep.floor("creation_payment", 300);
+            rep.floor("validity", 300);
+            rep.floor("unique", 20);
+            rep.floor("immutable", 5_000);
+            rep.finish(
+                &cfg.tier,
+                cfg.seed,
+                "exploration",
+                "W-pool (creation-heavy: valid pools and each invalid class — asset count, duplicate denoms, decimals length, amp 0, fee >= 100%, total > 20%, identifier charset/length, missing/over/extra funds — interleaved with all other operations and config changes); every creation attempt is compared with an independent well-formedness + exact-payment predicate; every 25th step a forked payment matrix: 5 token-factory fee configurations x 3 creation-fee settings x 7 fund variants with the bank slice of each accepted one; identifiers/LP denoms pairwise distinct and first-seen (assets, decimals, type, fees, LP denom) unchanged after every message; distinct = (class, #assets, type, decision) / (variant, fee configuration)",
+                &[ASSUME_CHAIN, ASSUME_BOUNDS],
+                t0.elapsed().as_secs_f64(),
+                json!({"shards": shards, "ops_per_shard": n}),
+            )
+        }
+        "C17" => {
+            let shards = cfg.pick(4, 32);
+            let n = cfg.pick(1_200, 6_000);
+            let mut rep = crate::run_shards(cfg, shards, |s| {
+                pool_shard(cfg, s, n, vec![Box::new(c17::C17::new(cfg.seed * 29 + s as u64))], &|g, _| {
+                    g.weights = [25, 12, 14, 8, 10, 3, 2, 12, 3];
+                })
+            });
+            rep.floor("switched_pool", 1_000);
+            rep.floor("other_pool", 500);
+            rep.floor("re_enabled", 200);
+            rep.floor("new_pools_enabled", 6);
+            rep.finish(
+                &cfg.tier,
+                cfg.seed,
+                "exploration",
+                "W-pool with frequent toggling; every 40th step a forked probe on a random funded pool: all 8 switch combinations (set in one message or field-by-field in random order) x {direct swap, route with the pool first/middle/last, single-asset deposit, single-asset locked deposit, deposit, locked deposit, withdrawal} + {swap, deposit, withdrawal on another pool}; decision must equal (reference decision with everything enabled) AND (needed switches on), effects of allowed operations (all reserves, supplies, balances, positions) must equal the reference fork, refused ones must leave the state identical, and after re-enabling everything equals the reference; distinct = (action, combination, pool type, decision)",
                 &[ASSUME_CHAIN, ASSUME_BOUNDS],
                 t0.elapsed().as_secs_f64(),
                 json!({"shards": shards, "ops_per_shard": n}),
